@@ -1,11 +1,275 @@
 (* C01 — Elementwise operators: same result for every shape, kind and broadcast form.
-   Property theorems only; proofs live in Proofs/ElemwiseP.v. *)
-From Coq Require Import List Arith ZArith.
-From Coq Require String.
+   Property theorems only; proofs live in Proofs/ElemwiseP.v.
+
+   Reading guide.  [bop f a b] is the SPECIFICATION of an elementwise operator whose scalar
+   behaviour is the partial function [f] ([None] = the operator does not accept these scalars):
+   broadcast shape by [bshape], then tabulation of [f] over the broadcast elements.
+   [ibop dflt vk f a b] is the IMPLEMENTATION model: storage forms, the dispatch arms of
+   impl_binop_match_arms! in their order with their guards, and the kernel loops.
+   [sop] is the scalar model.  The judge compares the implementation with [bop] instantiated
+   with the implementation's own scalar results, and those scalar results with [sop]. *)
+From Coq Require Import List Arith ZArith Bool Reals.
+From Coq Require Import String.
+From Flocq Require Import Core IEEE754.Binary IEEE754.Bits.
 From MechV Require Import Base.Sexp Base.Obs Model.Elemwise Proofs.ElemwiseP.
 Import ListNotations.
 
+(* ---- broadcasting: every shape, every element list ---------------------------------- *)
+
+(* 1. The result has the broadcast shape of the operands (and is a well-formed matrix). *)
+Theorem C01_bop_shape : forall (A X : Type) (f : A -> A -> option X) (a b : operand A) (v : operand X),
+  bop f a b = Some v -> bshape (oshape a) (oshape b) = Some (oshape v) /\ owf v = true.
+Proof. exact (@bop_shape). Qed.
+Print Assumptions C01_bop_shape.
+
+(* 2. Each element equals the scalar operator applied to the corresponding (broadcast) scalar elements. *)
+Theorem C01_bop_elem : forall (A X : Type) (f : A -> A -> option X) (a b : operand A) (v : operand X) (s : shape),
+  bop f a b = Some v -> bshape (oshape a) (oshape b) = Some s ->
+  forall i j, in_shape s i j ->
+    exists x y r, bget a i j = Some x /\ bget b i j = Some y /\ f x y = Some r /\ oget v i j = Some r.
+Proof. exact (@bop_elem). Qed.
+Print Assumptions C01_bop_elem.
+
+(* 3. If the scalar operator accepts the elements, then two matrices of one (any) shape, and a matrix
+      with a scalar on either side, are accepted. *)
+Theorem C01_bop_accept_uniform : forall (A X : Type) (f : A -> A -> option X) (a b : operand A),
+  owf a = true -> owf b = true ->
+  (forall x y, In x (odata a) -> In y (odata b) -> f x y <> None) ->
+  (oshape a = oshape b \/ oshape a = Sc \/ oshape b = Sc) ->
+  bop f a b <> None.
+Proof. exact (@bop_accept_uniform). Qed.
+Print Assumptions C01_bop_accept_uniform.
+
+(* 4. Operands of incompatible shape are rejected. *)
 Theorem C01_bop_reject_incompatible : forall (A X : Type) (f : A -> A -> option X) (a b : operand A),
   bshape (oshape a) (oshape b) = None -> bop f a b = None.
 Proof. exact (@bop_reject_incompatible). Qed.
 Print Assumptions C01_bop_reject_incompatible.
+
+(* 5. ... and nothing else is: with compatible shapes an error comes from one scalar application. *)
+Theorem C01_bop_none_inv : forall (A X : Type) (f : A -> A -> option X) (a b : operand A) (s : shape),
+  owf a = true -> owf b = true ->
+  bshape (oshape a) (oshape b) = Some s -> bop f a b = None ->
+  exists i j x y, in_shape s i j /\ bget a i j = Some x /\ bget b i j = Some y /\ f x y = None.
+Proof. exact (@bop_none_inv). Qed.
+Print Assumptions C01_bop_none_inv.
+
+(* ---- the dispatch of the code against the broadcast rule ------------------------------ *)
+
+(* 6. Which shapes reach which generated arm (storage forms from (rows, cols), arm order, guards),
+      and that no arm fires exactly for the incompatible shapes — but for the same-form arm,
+      which tests nothing. *)
+Theorem C01_dispatch_spec : forall a b : shape, pos_shape a -> pos_shape b ->
+  match dispatch a b with
+  | None => bshape a b = None
+  | Some ASS => a = Sc /\ b = Sc
+  | Some ASM => a = Sc /\ exists r c, b = Mx r c
+  | Some AMS => b = Sc /\ exists r c, a = Mx r c
+  | Some AVV => (exists r1 c1 r2 c2, a = Mx r1 c1 /\ b = Mx r2 c2) /\ (a = b \/ bshape a b = None)
+  | Some AMV => exists R C, 2 <= R /\ 2 <= C /\ a = Mx R C /\ b = Mx R 1
+  | Some AMR => exists R C, 2 <= R /\ 2 <= C /\ a = Mx R C /\ b = Mx 1 C
+  | Some AVM => exists R C, 2 <= R /\ 2 <= C /\ b = Mx R C /\ a = Mx R 1
+  | Some ARM => exists R C, 2 <= R /\ 2 <= C /\ b = Mx R C /\ a = Mx 1 C
+  end.
+Proof. exact dispatch_spec. Qed.
+Print Assumptions C01_dispatch_spec.
+
+(* 7. C01 holds for the implementation model outside the known-finding class: arms + kernels compute
+      exactly the specification, for every scalar function, kernel flavour, shape and element list. *)
+Theorem C01_holds : forall (A X : Type) (dflt : X) (vk : vkern) (f : A -> A -> option X) (a b : operand A),
+  owf a = true -> owf b = true -> pos_shape (oshape a) -> pos_shape (oshape b) ->
+  kf_samevec vk a b = false -> ibop dflt vk f a b = bop f a b.
+Proof. exact (@ibop_eq_bop). Qed.
+Print Assumptions C01_holds.
+
+(* 8. The class consists of incompatible shapes only ... *)
+Theorem C01_kf_class_incompatible : forall (A : Type) (vk : vkern) (a b : operand A),
+  pos_shape (oshape a) -> pos_shape (oshape b) ->
+  kf_samevec vk a b = true -> bshape (oshape a) (oshape b) = None.
+Proof. exact (@kf_samevec_incompatible). Qed.
+Print Assumptions C01_kf_class_incompatible.
+
+(* 9. ... and inside it the model (like the code: `[1 2 3 4] * [1 2 3]` = [1 4 9 0]) returns a value
+      where the property demands an error. *)
+Theorem C01_refuted_samevec_shape_unchecked :
+  exists (a b : operand Z) (v : operand Z),
+    owf a = true /\ owf b = true /\ pos_shape (oshape a) /\ pos_shape (oshape b) /\
+    bshape (oshape a) (oshape b) = None /\ kf_samevec VZip a b = true /\
+    ibop 0%Z VZip (fun x y => Some (x * y)%Z) a b = Some v.
+Proof. exact refuted_samevec. Qed.
+Print Assumptions C01_refuted_samevec_shape_unchecked.
+
+(* ---- scalars --------------------------------------------------------------------------- *)
+
+(* 10. Integers: the model is binding exactly where exact integer arithmetic has a result the kind
+       represents, and then yields it (+ - * unary-, ^ for u8/u16/u32, / when the divisor divides,
+       % on non-negative operands). *)
+Theorem C01_sop_int_exact : forall (o : op) (sg : bool) (w a b z : Z),
+  (0 < w)%Z -> in_range sg w a = true -> in_range sg w b = true ->
+  is_arith o = true -> accepts o (KInt sg w) = true ->
+  (sop o (KInt sg w) (Zx a) (Zx b) = SV true (Zx z) <-> zarith o a b = Some z /\ in_range sg w z = true).
+Proof. exact sop_int_exact. Qed.
+Print Assumptions C01_sop_int_exact.
+
+Theorem C01_zarith_div_exact : forall a b q : Z, b <> 0%Z -> a = (b * q)%Z -> zarith Div a b = Some q.
+Proof. exact zarith_div_exact. Qed.
+Print Assumptions C01_zarith_div_exact.
+
+(* 11. Integer comparisons are the order of Z. *)
+Theorem C01_sop_int_cmp : forall (o : op) (sg : bool) (w a b : Z),
+  in_range sg w a = true -> in_range sg w b = true -> is_cmp o = true ->
+  sop o (KInt sg w) (Zx a) (Zx b) = SV true (bool_p (zcmp o a b)).
+Proof. exact sop_int_cmp. Qed.
+Print Assumptions C01_sop_int_cmp.
+
+(* 12. Boolean algebra. *)
+Theorem C01_sop_bool_algebra : forall a b : bool,
+  sop And KBool (bool_p a) (bool_p b) = SV true (bool_p (a && b)) /\
+  sop Or KBool (bool_p a) (bool_p b) = SV true (bool_p (a || b)) /\
+  sop Xor KBool (bool_p a) (bool_p b) = SV true (bool_p (xorb a b)) /\
+  sop Not KBool (bool_p a) (bool_p b) = SV true (bool_p (negb a)) /\
+  sop Eq KBool (bool_p a) (bool_p b) = SV true (bool_p (Bool.eqb a b)) /\
+  sop Ne KBool (bool_p a) (bool_p b) = SV true (bool_p (negb (Bool.eqb a b))).
+Proof. exact sop_bool_algebra. Qed.
+Print Assumptions C01_sop_bool_algebra.
+
+(* 13. Rationals: a binding result is the exact value N/D of the operation in lowest terms with positive
+       denominator, both parts within i64; and the model is binding whenever that reduced value fits. *)
+Theorem C01_sop_rat_exact : forall (o : op) (n1 d1 n2 d2 N D : Z) (p : sx),
+  (0 < d1)%Z -> (0 < d2)%Z -> qarith o n1 d1 n2 d2 = Some (N, D) ->
+  sop o KR64 (Lx [Zx n1; Zx d1]) (Lx [Zx n2; Zx d2]) = SV true p ->
+  D <> 0%Z /\ exists n d, p = Lx [Zx n; Zx d] /\ (0 < d)%Z /\ Z.gcd n d = 1%Z /\ (n * D = N * d)%Z /\
+                         in_range true 64 n = true /\ in_range true 64 d = true.
+Proof. exact sop_rat_exact. Qed.
+Print Assumptions C01_sop_rat_exact.
+
+Theorem C01_sop_rat_binding : forall (o : op) (n1 d1 n2 d2 N D : Z),
+  (0 < d1)%Z -> (0 < d2)%Z -> qarith o n1 d1 n2 d2 = Some (N, D) -> D <> 0%Z ->
+  in_range true 64 (fst (rnorm N D)) = true -> in_range true 64 (snd (rnorm N D)) = true ->
+  exists p, sop o KR64 (Lx [Zx n1; Zx d1]) (Lx [Zx n2; Zx d2]) = SV true p.
+Proof. exact sop_rat_binding. Qed.
+Print Assumptions C01_sop_rat_binding.
+
+Theorem C01_sop_rat_cmp : forall (o : op) (n1 d1 n2 d2 : Z),
+  (0 < d1)%Z -> (0 < d2)%Z -> is_cmp o = true ->
+  sop o KR64 (Lx [Zx n1; Zx d1]) (Lx [Zx n2; Zx d2]) = SV true (bool_p (zcmp o (n1 * d2) (n2 * d1))).
+Proof. exact sop_rat_cmp. Qed.
+Print Assumptions C01_sop_rat_cmp.
+
+(* 14. Floats: + - * / are Flocq's IEEE-754 binary64 / binary32 operations (round to nearest even); for
+       finite operands without overflow the result denotes the rounded exact real result. *)
+Theorem C01_sop_f64_ieee : forall (o : op) (a b : Z),
+  is_fop o = true -> (0 <= a < 2 ^ 64)%Z -> (0 <= b < 2 ^ 64)%Z ->
+  let x := b64_of_bits a in
+  let y := b64_of_bits b in
+  exists r, sop o KF64 (Zx a) (Zx b) = SV true (Zx r) /\
+    (is_finite 53 1024 x = true -> is_finite 53 1024 y = true ->
+     (o = Div -> B2R 53 1024 y <> 0%R) ->
+     Rlt_bool (Rabs (round64 (rop o (B2R 53 1024 x) (B2R 53 1024 y)))) (bpow radix2 1024) = true ->
+     B2R 53 1024 (b64_of_bits r) = round64 (rop o (B2R 53 1024 x) (B2R 53 1024 y)) /\
+     is_finite 53 1024 (b64_of_bits r) = true).
+Proof. exact sop_f64_ieee. Qed.
+Print Assumptions C01_sop_f64_ieee.
+
+Theorem C01_sop_f32_ieee : forall (o : op) (a b : Z),
+  is_fop o = true -> (0 <= a < 2 ^ 32)%Z -> (0 <= b < 2 ^ 32)%Z ->
+  let x := b32_of_bits a in
+  let y := b32_of_bits b in
+  exists r, sop o KF32 (Zx a) (Zx b) = SV true (Zx r) /\
+    (is_finite 24 128 x = true -> is_finite 24 128 y = true ->
+     (o = Div -> B2R 24 128 y <> 0%R) ->
+     Rlt_bool (Rabs (round32 (rop o (B2R 24 128 x) (B2R 24 128 y)))) (bpow radix2 128) = true ->
+     B2R 24 128 (b32_of_bits r) = round32 (rop o (B2R 24 128 x) (B2R 24 128 y)) /\
+     is_finite 24 128 (b32_of_bits r) = true).
+Proof. exact sop_f32_ieee. Qed.
+Print Assumptions C01_sop_f32_ieee.
+
+Theorem C01_sop_f64_neg : forall a b : Z, (0 <= a < 2 ^ 64)%Z -> (0 <= b < 2 ^ 64)%Z ->
+  exists r, sop Neg KF64 (Zx a) (Zx b) = SV true (Zx r) /\
+            B2R 53 1024 (b64_of_bits r) = (- B2R 53 1024 (b64_of_bits a))%R.
+Proof. exact sop_f64_neg. Qed.
+Print Assumptions C01_sop_f64_neg.
+
+(* 15. Float comparisons: the order of the denoted reals for finite operands; with a NaN only != holds. *)
+Theorem C01_sop_f64_cmp : forall (o : op) (a b : Z),
+  is_cmp o = true -> (0 <= a < 2 ^ 64)%Z -> (0 <= b < 2 ^ 64)%Z ->
+  let x := b64_of_bits a in
+  let y := b64_of_bits b in
+  (is_finite 53 1024 x = true -> is_finite 53 1024 y = true ->
+   sop o KF64 (Zx a) (Zx b) = SV true (bool_p (cmp_of o (Rcompare (B2R 53 1024 x) (B2R 53 1024 y))))) /\
+  (is_nan 53 1024 x = true \/ is_nan 53 1024 y = true ->
+   sop o KF64 (Zx a) (Zx b) = SV true (bool_p (match o with Ne => true | _ => false end))).
+Proof. exact sop_f64_cmp. Qed.
+Print Assumptions C01_sop_f64_cmp.
+
+Theorem C01_sop_f32_cmp : forall (o : op) (a b : Z),
+  is_cmp o = true -> (0 <= a < 2 ^ 32)%Z -> (0 <= b < 2 ^ 32)%Z ->
+  let x := b32_of_bits a in
+  let y := b32_of_bits b in
+  (is_finite 24 128 x = true -> is_finite 24 128 y = true ->
+   sop o KF32 (Zx a) (Zx b) = SV true (bool_p (cmp_of o (Rcompare (B2R 24 128 x) (B2R 24 128 y))))) /\
+  (is_nan 24 128 x = true \/ is_nan 24 128 y = true ->
+   sop o KF32 (Zx a) (Zx b) = SV true (bool_p (match o with Ne => true | _ => false end))).
+Proof. exact sop_f32_cmp. Qed.
+Print Assumptions C01_sop_f32_cmp.
+
+(* ---- the judge ---------------------------------------------------------------------------- *)
+
+(* 16. An `ok` of the judge means: every scalar evaluation the property fixes agrees with the scalar
+       model, and `A op B` is an error iff the shapes are incompatible or one of its scalar evaluations
+       is no value, and otherwise is bop over the implementation's own scalar results (hence, by 1-2,
+       has the broadcast shape and the right element everywhere). *)
+Theorem C01_judge_sound : forall (o : op) (k : kind) (kn : String.string) (a b : operand sx) (t : otable)
+                                 (r : obs) (tag : String.string),
+  judge_core o k kn a b t r = v_ok tag -> C01_spec o k kn a b t r.
+Proof. exact judge_core_sound. Qed.
+Print Assumptions C01_judge_sound.
+
+(* ---- examples (non-vacuity) --------------------------------------------------------------- *)
+
+(* a 2x3 i16 matrix subtracted from a scalar on the left: 10 - [1 2 3; 4 5 6] *)
+Example C01_example_scalar_lhs :
+  bop (sopf Sub (KInt true 16)) (OS (Zx 10)) (OM (Mat 2 3 [Zx 1; Zx 4; Zx 2; Zx 5; Zx 3; Zx 6]))
+  = Some (OM (Mat 2 3 [Zx 9; Zx 6; Zx 8; Zx 5; Zx 7; Zx 4])).
+Proof. vm_compute. reflexivity. Qed.
+Print Assumptions C01_example_scalar_lhs.
+
+(* a 3x1 column broadcast against a 3x4 matrix, non-commutative operator, through spec and implementation model *)
+Example C01_example_col_broadcast :
+  let a := OM (Mat 3 1 [Zx 100; Zx 200; Zx 300]) in
+  let b := OM (Mat 3 4 [Zx 1; Zx 2; Zx 3; Zx 4; Zx 5; Zx 6; Zx 7; Zx 8; Zx 9; Zx 10; Zx 11; Zx 12]) in
+  bshape (oshape a) (oshape b) = Some (Mx 3 4) /\ dispatch (oshape a) (oshape b) = Some AVM /\
+  bop (sopf Sub (KInt true 32)) a b
+  = Some (OM (Mat 3 4 [Zx 99; Zx 198; Zx 297; Zx 96; Zx 195; Zx 294; Zx 93; Zx 192; Zx 291; Zx 90; Zx 189; Zx 288])) /\
+  ibop (Zx 0) VStrict (sopf Sub (KInt true 32)) a b = bop (sopf Sub (KInt true 32)) a b.
+Proof. vm_compute. repeat split; reflexivity. Qed.
+Print Assumptions C01_example_col_broadcast.
+
+(* an overflow lands in the advisory region; a row against a column is incompatible *)
+Example C01_example_overflow_and_incompatible :
+  sop Add (KInt false 8) (Zx 200) (Zx 100) = SAdv /\
+  sop Add (KInt false 8) (Zx 200) (Zx 55) = SV true (Zx 255) /\
+  bshape (Mx 1 3) (Mx 3 1) = None /\ dispatch (Mx 1 3) (Mx 3 1) = None /\
+  bshape (Mx 1 1) (Mx 2 2) = None /\ dispatch (Mx 1 1) (Mx 2 2) = Some AVV.
+Proof. vm_compute. repeat split; reflexivity. Qed.
+Print Assumptions C01_example_overflow_and_incompatible.
+
+(* 0.1 + 0.2 on f64 is 0.30000000000000004 (bit patterns), NaN != NaN *)
+Example C01_example_float :
+  sop Add KF64 (Zx 4591870180066957722) (Zx 4596373779694328218) = SV true (Zx 4599075939470750516) /\
+  sop Eq KF64 (Zx 9221120237041090560) (Zx 9221120237041090560) = SV true (Zx 0) /\
+  sop Ne KF64 (Zx 9221120237041090560) (Zx 9221120237041090560) = SV true (Zx 1).
+Proof. vm_compute. repeat split; reflexivity. Qed.
+Print Assumptions C01_example_float.
+
+(* the judge on two observed lines: a correct broadcast, and the known wrong value of the finding *)
+Local Open Scope string_scope.
+Example C01_example_judge :
+  run_line "((ew sub i16 s (2 3) ((0 0) (0 1) (0 2) (0 3) (0 4) (0 5))) (multi (tuple (s i16 10) (m i16 2 3 (1 4 2 5 3 6))) (m i16 2 3 (9 6 8 5 7 4)) (s i16 9) (s i16 6) (s i16 8) (s i16 5) (s i16 7) (s i16 4)))"
+  = "(ok value)" /\
+  run_line "((ew mul u8 (1 4) (1 3) ((0 0) (1 1) (2 2))) (multi (tuple (m u8 1 4 (1 2 3 4)) (m u8 1 3 (1 2 3))) (m u8 1 4 (1 4 9 0)) (s u8 1) (s u8 4) (s u8 9)))"
+  = "(kf samevec-shape-unchecked)" /\
+  run_line "((ew mul u8 (1 4) (1 3) ((0 0) (1 1) (2 2))) (multi (tuple (m u8 1 4 (1 2 3 4)) (m u8 1 3 (1 2 3))) (m u8 1 4 (1 4 9 7)) (s u8 1) (s u8 4) (s u8 9)))"
+  = "(bad incompatible-shapes-accepted err)".
+Proof. vm_compute. repeat split; reflexivity. Qed.
+Print Assumptions C01_example_judge.
